@@ -500,6 +500,29 @@ def c19(tier):
                 cases.append(("single", d, Config([("iter", {"mode": "table_inline"})])))
                 cases.append(("pair", d, Config([("iter", {"mode": "table"}), "range"])))
                 cases.append(("pair", d, Config([("iter", {"mode": "next_and_back"}), "range"])))
+    # the documented signatures hold for every vis value (seed C19-r6m2: MIN/MAX typed as the repr when vis = "" was written out) ...
+    for r in ("i8", "u64", "isize") if tier == "quick" else reprs:
+        for g in (True, False):
+            d = make_decl(r, [3, 4, 5] if g else [1, 5, 100], renames=False)
+            for vis in catalogue.VIS_VALUES:
+                for ms in ({}, {"as_str": "table", "from_str": "table", "FromStr": "table", "iter": "table"}):
+                    base = catalogue.full_config(g, ms)
+                    feats = [(f, dict(p, vis=vis) if f in catalogue.NAMEABLE and not (f in ("iter", "names") and vis == "") else p) for f, p in base.feats]
+                    cases.append(("vis", d, Config(feats)))
+    # ... and for every enum shape (seed C19-r6m1: `From<repr>` instead of `TryFrom<repr>` for an enum that covers its whole repr)
+    shapes = []
+    for r in ("i8", "u8"):
+        shapes += enums.family_L(r, renames=False)
+    for r in reprs:
+        shapes.append(make_decl(r, [enums.hi(r), enums.lo(r)], renames=False))
+        shapes.append(make_decl(r, [enums.lo(r) + 1, enums.lo(r)], renames=False))
+    shapes.append(make_decl("i16", [x for x in range(-30, 30) if x % 3 != 0], renames=False))
+    shapes.append(make_decl("u32", [0, 1, 3, 4, 6], renames=False))
+    shapes.append(make_decl("u16", list(range(0, 300)), renames=False))
+    for d in shapes:
+        for ms in ({}, {"as_str": "table", "from_str": "table", "FromStr": "table", "iter": "table"},
+                   {"as_str": "match", "from_str": "match", "FromStr": "match", "iter": "next_and_back"}):
+            cases.append(("shape", d, catalogue.full_config(d.gapless, ms)))
     vs = e2.compile_many([{"src": probe_source(d, cfg)} for _w, d, cfg in cases])
     for (w, d, cfg), v in zip(cases, vs):
         res.states += 1
